@@ -362,12 +362,15 @@ def fisnan(ty, a):
 
 
 def fisinf(ty, a):
-    return [P('|x| == inf', T.fcmp('oeq', T.fabs(a), finf(ty)))]
+    return [P('|x| == inf', T.fcmp('oeq', T.fabs(a), finf(ty))),
+            P('|x| > MAX', T.fcmp('ogt', T.fabs(a), K(ty, 0x7f7fffff if ty.bits == 32 else 0x7fefffffffffffff)))]
 
 
 def fisfinite(ty, a):
     return [P('x - x == 0', T.fcmp('oeq', _fsub(ty, a, a), K(ty, 0))),
-            P('|x| != inf and ordered', T.fcmp('one', T.fabs(a), finf(ty)))]
+            P('|x| != inf and ordered', T.fcmp('one', T.fabs(a), finf(ty))),
+            P('|x| <= MAX', T.fcmp('ole', T.fabs(a), K(ty, 0x7f7fffff if ty.bits == 32 else 0x7fefffffffffffff))),
+            P('|x| < inf', T.fcmp('olt', T.fabs(a), finf(ty)))]
 
 
 def fone(ty):
